@@ -3,7 +3,8 @@
 // tier: quick
 // bound: one author per sequence, keys over {"", a, ab, b, [61 ff], a^40 (forty bytes, its prefixes are 39 and 40 bytes shorter)}, two timestamps, entries and deletion markers; every sequence of up to
 // three distinct entries in every order (thorough tier: up to four). Checks C02: every insert answers as the reference does (rejected / number of pruned entries) and the final state is the same for every order and equals the reference
-// (an entry is held iff no other offered entry of the same author at its key or a prefix of it is >= it).
+// (an entry is held iff no other offered entry of the same author at its key or a prefix of it is >= it); the key-ordered query agrees with the point
+// lookups after every sequence; a local delete_prefix and an older entry below it commute.
 #[cfg(test)]
 mod verif_rp_c02_order {
     use super::*;
@@ -56,6 +57,22 @@ mod verif_rp_c02_order {
         got.sort();
         got
     }
+    /// the key-ordered index shows the same entries as the point lookups: checked on a fresh store (a query takes a snapshot, i.e. a commit, and
+    /// walks the entries of all authors), for every 16th sequence
+    async fn by_key_agrees(ns: &NamespaceSecret, seq: &[E], base: u64, want: &[(Vec<u8>, u64, bool)]) {
+        let mut store = Store::memory();
+        let a = Author::new(&mut rand::rng());
+        let mut r = store.new_replica(ns.clone()).unwrap();
+        for e in seq { let _ = r.insert_remote_entry(signed(ns, &a, e, base), [1u8; 32], ContentStatus::Missing).await; }
+        drop(r);
+        store.close_replica(ns.id());
+        for (name, q) in [("key-then-author order", Query::all().include_empty().sort_by(crate::store::SortBy::KeyAuthor, crate::store::SortDirection::Asc).build()),
+                          ("latest per key", Query::single_latest_per_key().include_empty().build())] {
+            let mut got: Vec<(Vec<u8>, u64, bool)> = store.get_many(ns.id(), q).unwrap().map(|e| { let e = e.unwrap(); (e.key().to_vec(), e.timestamp() - base, e.is_empty()) }).collect();
+            got.sort();
+            assert_eq!(got, want, "WITNESS after offering {seq:?}: the {name} query shows {got:?}, point lookups show {want:?}");
+        }
+    }
     fn key_universe() -> Vec<Vec<u8>> { vec![vec![], vec![0x61], vec![0x61, 0x62], vec![0x62], vec![0x61, 0xff], vec![0x61; 40]] }
     fn perms(v: &[E]) -> Vec<Vec<E>> {
         if v.len() <= 1 { return vec![v.to_vec()]; }
@@ -90,10 +107,35 @@ mod verif_rp_c02_order {
             let want = reference(&set);
             for p in perms(&set) {
                 let got = run(&mut store, &ns, &p, base).await;
+                if cases % 16 == 0 { by_key_agrees(&ns, &p, base, &got).await; }
                 cases += 1;
                 assert_eq!(got, want, "WITNESS offering {:?} in this order leaves {:?}, expected (any order) {:?}", p, got, want);
             }
         } } } }
         println!("c02_order: {cases} sequences checked");
+    }
+
+    /// Local deletions: `delete_prefix(P)` by an author (a marker stamped with the current time) and an older entry of that author at or below P,
+    /// offered in both orders: the state is the same (only the marker), also when the author holds nothing below P at the time of the deletion.
+    #[tokio::test]
+    async fn local_deletion_commutes_with_older_entries() {
+        let mut rng = rand::rng();
+        let ns = NamespaceSecret::new(&mut rng);
+        let base = system_time_now() - 1_000_000;
+        for prefix in [&b""[..], b"a", b"ab"] { for key in key_universe().into_iter().filter(|k| k.starts_with(prefix)) { for deletion_first in [true, false] {
+            let mut store = Store::memory();
+            let mut r = store.new_replica(ns.clone()).unwrap();
+            let a = Author::new(&mut rng);
+            let old = signed(&ns, &a, &E { key: key.clone(), ts: 1, marker: false }, base);
+            let mut answers = vec![];
+            for step in 0..2 {
+                if (step == 0) == deletion_first { answers.push(format!("{:?}", r.delete_prefix(prefix, &a).await)); }
+                else { answers.push(format!("{:?}", r.insert_remote_entry(old.clone(), [1u8; 32], ContentStatus::Missing).await.map_err(|e| e.to_string()))); }
+            }
+            drop(r);
+            store.close_replica(ns.id());
+            let held: Vec<(Vec<u8>, bool)> = store.get_many(ns.id(), Query::all().include_empty()).unwrap().map(|e| { let e = e.unwrap(); (e.key().to_vec(), e.is_empty()) }).collect();
+            assert_eq!(held, vec![(prefix.to_vec(), true)], "WITNESS delete_prefix({prefix:02x?}) and an older entry at {key:02x?} (deletion first: {deletion_first}; answers {answers:?}) leave {held:?}, expected only the deletion marker");
+        } } }
     }
 }
